@@ -10,42 +10,43 @@ From F8 Require Import Sess.Bytes Sess.Msg Sess.Persist Sess.Session Sess.Simple
 Import ListNotations.
 Local Open Scope N_scope.
 
-(* c17_store_partial, for ALL histories of this shape (any length, both roles, memory / file / no
-   persister, any start number, any schema whose admin flags are the session-level types): a START
-   followed by plain SEND / BATCH / CLOCK operations with SOH- and NUL-free field contents, in which
-   every batch of two or more messages ENDS WITH AN ADMINISTRATIVE message, satisfies the oracle: single
-   sends and every batch member are stored under their own number with exactly the wire bytes, and no
-   administrative message is stored. *)
-Theorem c17_store_partial : forall (sc : schema) (p : startp) (t : option Z) (ops : list op),
+(* c17_store: the property at full strength for send-side histories (any length, both roles, memory / file /
+   no persister, any start number, any schema whose admin flags are the session-level types): a START
+   followed by plain SEND / BATCH / CLOCK operations with SOH- and NUL-free field contents satisfies the
+   oracle -- every transmitted new application message, sent singly or in ANY position of a batch, is stored
+   under its MsgSeqNum with exactly the wire bytes, and no administrative message is stored.
+   (plain = no custom sequence number, no no_increment, not a SequenceReset, MsgSeqNum / PossDupFlag not
+   preset: with a custom number the key is next_send, see c17_custom_refuted.) *)
+Theorem c17_store : forall (sc : schema) (p : startp) (t : option Z) (ops : list op),
   wf_schema sc = true -> nonul (sc_begin sc) = true -> wf_admin sc = true ->
   wf_start17 p = true -> forallb plain_op17 ops = true ->
   c17_ok (OStart p t :: ops) (run_history sc (OStart p t :: ops)) = true.
 Proof. exact c17_store_partial_lemma. Qed.
-Print Assumptions c17_store_partial.
+Print Assumptions c17_store.
 
-(* the same at the level of one Session::send_process call, for every state between operations or
-   inside a batch: unless the message is the one that flushes a non-empty batch buffer, the store grows
-   by exactly (next_send, wire bytes) for an application message and not at all for an administrative
-   one (the flushing message must be administrative for this to hold: see c17_store_refuted). *)
+(* the same at the level of one Session::send_process call, for every state between operations or inside a
+   batch and for every position, the message that flushes a non-empty batch buffer included: the store grows
+   by exactly (next_send, wire bytes) for an application message and not at all for an administrative one. *)
 Theorem c17_store_step : forall sc now s m pend,
   wf_schema sc = true -> nonul (sc_begin sc) = true ->
   plain17 sc m = true -> good s -> s_batch s = concat (map (encode sc) pend) ->
-  (m_eob m = true -> pend <> [] -> session_type (m_type m) = true) ->
   p_attached (s_per s) = true ->
   p_store (s_per (snd (fst (send_process sc now s m)))) =
   (p_store (s_per s) ++ if session_type (m_type m) then [] else [(s_next_send s, wire sc now s m)])%list.
 Proof. exact c17_store_step_lemma. Qed.
 Print Assumptions c17_store_step.
 
-(* c17_store_refuted (F21): a batch of two application messages puts numbers 2 and 3 on the wire (after
-   the Logon, 1); the store receives 2 with its 83 wire bytes and 3 with the EMPTY string -- ptr had been
-   redirected to the batch buffer, which is cleared before _persist->put. *)
-Theorem c17_store_refuted :
-  all_new_seqs (run_history demo_schema h_batch2) = map dec [1; 2; 3] /\
-  store_lengths (run_history demo_schema h_batch2) = [(2, Some 83%nat); (3, Some 0%nat)] /\
-  c17_ok h_batch2 (run_history demo_schema h_batch2) = false.
-Proof. exact c17_store_refuted_lemma. Qed.
-Print Assumptions c17_store_refuted.
+(* c17_store_orig_refuted (F21, repaired by d862447): in a state with a non-empty batch buffer the ORIGINAL
+   send_process stored the flushing application message (number 3, 81 wire bytes) as the EMPTY string --
+   ptr had been redirected to the batch buffer, which is cleared before _persist->put; the code as it is
+   now stores the 81 bytes. *)
+Theorem c17_store_orig_refuted :
+  s_next_send sb1 = 3 /\ s_batch sb1 <> [] /\
+  last_stored (send_process_orig demo_schema T0 sb1 m_order) = Some 0%nat /\
+  last_stored (send_process demo_schema T0 sb1 m_order) = Some 81%nat /\
+  length (wire demo_schema T0 sb1 m_order) = 81%nat.
+Proof. exact c17_store_orig_refuted_lemma. Qed.
+Print Assumptions c17_store_orig_refuted.
 
 (* a custom sequence number: the message travels as 7 but is stored under next_send = 2. *)
 Theorem c17_custom_refuted :
@@ -55,12 +56,14 @@ Theorem c17_custom_refuted :
 Proof. exact c17_custom_refuted_lemma. Qed.
 Print Assumptions c17_custom_refuted.
 
-(* non-vacuity of c17_store_partial: singles, a batch of three ending with a Heartbeat, a batch of one and
-   admin sends meet the hypotheses; eight messages 1..8 go out, the five application ones are stored. *)
+(* non-vacuity of c17_store: singles, a batch with an application message last, a batch of one, a batch of two
+   application messages meet the hypotheses; nine messages 1..9 go out, the six application ones are stored;
+   the two-order batch that used to lose its last message satisfies the oracle. *)
 Theorem c17_nonvacuous :
   wf_schema demo_schema = true /\ nonul (sc_begin demo_schema) = true /\ wf_admin demo_schema = true /\
   wf_start17 (demo_init PFile) = true /\ forallb plain_op17 h_plain17 = true /\
-  all_new_seqs (run_history demo_schema (OStart (demo_init PFile) None :: h_plain17)) = map dec [1; 2; 3; 4; 5; 6; 7; 8] /\
-  stored_keys (run_history demo_schema (OStart (demo_init PFile) None :: h_plain17)) = [2; 3; 4; 7; 8].
+  all_new_seqs (run_history demo_schema (OStart (demo_init PFile) None :: h_plain17)) = map dec [1; 2; 3; 4; 5; 6; 7; 8; 9] /\
+  stored_keys (run_history demo_schema (OStart (demo_init PFile) None :: h_plain17)) = [2; 3; 5; 7; 8; 9] /\
+  c17_ok h_batch2 (run_history demo_schema h_batch2) = true.
 Proof. exact c17_nonvacuous_lemma. Qed.
 Print Assumptions c17_nonvacuous.
